@@ -243,6 +243,12 @@ func judgeC13Runtime(c *core.Case, cfg *core.Config) core.Verdict {
 			v.Skip = "run-panic(C04)"
 			return v
 		}
+		if missing && !strings.Contains(errMessage(rerr), "Zz") {
+			// without a declared environment the checker knows no operand type: a run may stop earlier for a reason
+			// of its own (open finding F26); only the error that is about the missing name is held to its position
+			v.Skip = "untyped-run-fails-elsewhere-first"
+			return v
+		}
 		wl, wc := line, col
 		if opt && ref.Fail.Class == "budget" {
 			// the optimiser legitimately allocates less (constant ranges, membership rewrites): the optimised
@@ -456,8 +462,11 @@ func genC13Runtime(t *rapid.T, cfg *core.Config) *core.Case {
 	g := core.NewGen(t, spec, rapid.IntRange(4, fuel).Draw(t, "fuel"), cfg.Excl)
 	g.Calls = rapid.IntRange(0, 9).Draw(t, "calls") < 6
 	g.Dyn = false
-	x := g.Root()
 	missing := rapid.IntRange(0, 4).Draw(t, "missing") == 0
+	// compiled without a declared environment every variable is dynamically typed for the checker: the region of
+	// open finding F26 (an int claimed for arithmetic with such an operand) is then excluded by the generator
+	g.AllDynamic = missing
+	x := g.Root()
 	if missing {
 		// untyped compilation of a program that reads a name the environment lacks: the failing operation is
 		// the fetch of that identifier
